@@ -251,6 +251,14 @@ type World struct {
 	nets          map[int]*simNet // what each attempt's network serves
 	started       map[int]bool    // attempts begun so far
 	conc          *conc           // non-nil while two installs run interleaved
+
+	// power-loss model: path -> number of leading bytes that are on stable storage. A file
+	// opened for writing is tracked from the size it had when it was opened; f.Sync() makes
+	// its current size durable; renames carry the record along. When the power fails, every
+	// tracked file loses (part of) the tail that was never synced.
+	dirty     map[string]int64
+	powerLost bool // a power loss has been applied to this tree: unsynced tails are gone
+	tornBinaries int
 }
 
 type placement struct {
@@ -271,7 +279,7 @@ func (w *World) violate(class, msg string) {
 
 func mutating(op string) bool {
 	switch op {
-	case "readfile", "readdir", "stat", "lstat", "open", "openfile":
+	case "readfile", "readdir", "stat", "lstat", "open", "openfile", "sync":
 		return false
 	}
 	return true
@@ -301,7 +309,86 @@ func (w *World) before(op string, paths ...string) error {
 	return nil
 }
 
+// trackDurability keeps the power-loss model's record of what is on stable storage.
+func (w *World) trackDurability(op string, paths []string) {
+	if w.dirty == nil {
+		w.dirty = map[string]int64{}
+	}
+	size := func(p string) int64 {
+		if fi, err := os.Lstat(p); err == nil && fi.Mode().IsRegular() {
+			return fi.Size()
+		}
+		return 0
+	}
+	switch op {
+	case "createtemp", "openfile-w", "writefile-truncated":
+		p := paths[0]
+		if _, ok := w.dirty[p]; !ok {
+			w.dirty[p] = size(p) // what was there when it was opened (0 after create / truncate)
+		} else if sz := size(p); sz < w.dirty[p] {
+			w.dirty[p] = sz
+		}
+	case "sync":
+		if paths[0] != "" {
+			w.dirty[paths[0]] = size(paths[0])
+		}
+	case "rename":
+		old, nw := paths[0], paths[1]
+		for p, d := range w.dirty {
+			if p == nw || strings.HasPrefix(p, nw+string(filepath.Separator)) {
+				delete(w.dirty, p)
+			}
+			_ = d
+		}
+		for p, d := range w.dirty {
+			if p == old {
+				delete(w.dirty, p)
+				w.dirty[nw] = d
+			} else if strings.HasPrefix(p, old+string(filepath.Separator)) {
+				delete(w.dirty, p)
+				w.dirty[nw+p[len(old):]] = d
+			}
+		}
+	case "remove", "removeall":
+		for p := range w.dirty {
+			if p == paths[0] || strings.HasPrefix(p, paths[0]+string(filepath.Separator)) {
+				delete(w.dirty, p)
+			}
+		}
+	}
+}
+
+// powerLoss: the machine loses power now. Every byte that was never forced to stable storage
+// may be gone: each tracked file is cut back to its durable size, or (one time in three) to a
+// PRNG-chosen length between that and its current size. Directory operations are kept (the
+// journal of a common file system commits a rename before the data it names).
+func (w *World) powerLoss(r *rand.Rand) int {
+	paths := make([]string, 0, len(w.dirty))
+	for p := range w.dirty {
+		paths = append(paths, p)
+	}
+	sort.Strings(paths)
+	lost := 0
+	for _, p := range paths {
+		fi, err := os.Lstat(p)
+		if err != nil || !fi.Mode().IsRegular() || fi.Size() <= w.dirty[p] {
+			continue
+		}
+		keep := w.dirty[p]
+		if r.IntN(3) == 0 {
+			keep += r.Int64N(fi.Size() - keep)
+		}
+		if os.Truncate(p, keep) == nil {
+			lost++
+		}
+	}
+	w.powerLost = true
+	w.dirty = map[string]int64{}
+	return lost
+}
+
 func (w *World) after(op string, paths ...string) {
+	w.trackDurability(op, paths)
 	dst := paths[len(paths)-1]
 	if mutating(op) && filepath.Dir(dst) == w.target && filepath.Base(dst) != ".registry" {
 		w.placements = append(w.placements, placement{w.cur, w.ops, dst})
@@ -471,8 +558,16 @@ func (w *World) allowedBinary(name string, content []byte) bool {
 			continue
 		}
 		for _, e := range a.Entries {
-			if e.Type == "reg" && !strings.Contains(strings.TrimPrefix(filepath.Clean(e.Name), "./"), "/") && bytes.Equal(e.contents, content) {
-				return true
+			if e.Type == "reg" && !strings.Contains(strings.TrimPrefix(filepath.Clean(e.Name), "./"), "/") {
+				if bytes.Equal(e.contents, content) {
+					return true
+				}
+				// after a power loss the unsynced tail of a binary may be missing (counted, not a
+				// violation: the statement's atomicity clause names the manifest and the index state)
+				if w.powerLost && len(content) < len(e.contents) && bytes.HasPrefix(e.contents, content) {
+					w.tornBinaries++
+					return true
+				}
 			}
 		}
 	}
@@ -677,6 +772,7 @@ func newWorld(sc *Scenario, root string) *World {
 // install runs attempt i through the real install pipeline.
 func (w *World) install(i int) (err error) {
 	w.cur, w.ops, w.crashed, w.faultFired, w.opLog = i, 0, false, false, nil
+	w.dirty = map[string]int64{} // what earlier attempts wrote has reached the disk by now
 	w.publish(i)
 	w.started[i] = true
 	simfs.Before, simfs.After = w.before, w.after
@@ -749,6 +845,7 @@ type Stats struct {
 	Shapes                                                      map[string]int
 	Faults                                                      map[string]int
 	Ops                                                         int
+	PowerLossPoints, UnsyncedFilesCut, TornBinaries             int
 	ConcRuns, ConcCrashes, ConcFaults, LockWaits, LockTimeouts  int
 	Schedules                                                   int // distinct schedules (sequences of scheduler picks) of interleaved installs
 	schedules                                                   map[uint64]bool
@@ -766,6 +863,12 @@ type Found struct {
 }
 
 var sandboxSeq int
+
+// searchDeadline bounds a search in wall time (set in search mode only; it decides how much
+// is explored, never what a given (seed, attempt, mode, operation) does).
+var searchDeadline time.Time
+
+func overBudget() bool { return !searchDeadline.IsZero() && time.Now().After(searchDeadline) }
 
 func mkSandbox(base string) string {
 	sandboxSeq++
@@ -852,10 +955,13 @@ func RunScenario(sc *Scenario, base string, maxPoints int, only *Found, st *Stat
 		if maxPoints > 0 && nops > maxPoints {
 			step = (nops + maxPoints - 1) / maxPoints
 		}
-		for _, mode := range []string{"crash-before", "crash-after", "fault"} {
-			for op := 1; op <= nops; op += step {
+		for op := 1; op <= nops; op += step {
+			for _, mode := range []string{"crash-before", "crash-after", "fault", "powerloss-before", "powerloss-after"} {
 				if only != nil && (only.Attempt != i || only.Mode != mode || only.Op != op) {
 					continue
+				}
+				if only == nil && overBudget() {
+					break
 				}
 				sb := mkSandbox(base)
 				_ = copyTree(pre, sb)
@@ -868,10 +974,17 @@ func RunScenario(sc *Scenario, base string, maxPoints int, only *Found, st *Stat
 					x.crashAt, x.crashAfter = op, true
 				case "fault":
 					x.faultAt = op
+				case "powerloss-before":
+					x.crashAt = op
+				case "powerloss-after":
+					x.crashAt, x.crashAfter = op, true
 				}
 				_ = x.install(i)
 				st.Runs++
-				if mode == "fault" {
+				if strings.HasPrefix(mode, "powerloss") {
+					st.PowerLossPoints++
+					st.UnsyncedFilesCut += x.powerLoss(rand.New(rand.NewPCG(uint64(sc.Seed), uint64(i*100003+op*7+len(mode)))))
+				} else if mode == "fault" {
 					st.FaultPoints++
 					for k, v := range x.faultsInjected {
 						st.Faults[k] += v
@@ -885,6 +998,7 @@ func RunScenario(sc *Scenario, base string, maxPoints int, only *Found, st *Stat
 				_ = x.install(i)
 				st.Runs++
 				x.checkTree(fmt.Sprintf("retry of attempt %d (%s) after %s at file-system operation %d", i, a.Shape, mode, op))
+				st.TornBinaries += x.tornBinaries
 				report(x, i, mode, op)
 				_ = os.RemoveAll(sb)
 			}
@@ -960,6 +1074,7 @@ func TestReg(t *testing.T) {
 		budget := time.Duration(envInt("VERIF_BUDGET_S", 30)) * time.Second
 		maxPoints := int(envInt("VERIF_MAXPOINTS", 0))
 		start := time.Now()
+		searchDeadline = start.Add(budget + budget/4)
 		rep := Report{SeedFirst: first}
 		for s := first; s < first+n && time.Since(start) < budget; s++ {
 			sc := GenScenario(s)
